@@ -35,6 +35,9 @@ TABLE = [
     ('&;', '&;'),
     ('&#;', '&#;'),
     ('&#xZ;', '&#xZ;'),
+    ('&#9999999;', '\ufffd'),               # a reference, but no code point: U+FFFD
+    ('&#x110000;', '\ufffd'),
+    ('&#xD800;', '\ufffd'),                 # a surrogate is no character
     ('&#12345678;', '&#12345678;'),        # more than seven digits
     ('&#x1234567;', '&#x1234567;'),        # more than six hexadecimal digits
     ('& amp;', '& amp;'),
